@@ -52,6 +52,48 @@ class RecConn:
         return ch
 
 
+class PartialSock:
+    """a socket that takes at most `mss` bytes per send() (sometimes fewer): a large publish needs several sends"""
+
+    def __init__(self, rng, mss):
+        self.rng, self.mss, self.out, self.sends = rng, mss, bytearray(), 0
+
+    def send(self, data):
+        k = min(len(data), self.mss if self.rng.random() < 0.7 else self.rng.randint(1, self.mss))
+        self.out += bytes(data[:k])
+        self.sends += 1
+        return k
+
+
+def wire_pass(rep, rng, rc, cid, frames, encoded, label, replay):
+    """the same frames through the real Connection.write_frames and IO.write_to_socket onto a socket that accepts the
+    bytes piecemeal: what reaches the broker is the marshalled frames, so the body frames on the wire still
+    concatenate to the payload"""
+    conn = rc.conn
+    total = sum(len(pframe.marshal(f, cid)) for f in frames)
+    mss = rng.choice([1460, 512, 7, max(1, total // 3), max(1, total // 5)])
+    sock = PartialSock(rng, mss)
+    conn._io.socket = sock
+    try:
+        type(conn).write_frames(conn, cid, frames)
+    finally:
+        conn._io.socket = None
+    want = b''.join(pframe.marshal(f, cid) for f in frames)
+    got = bytes(sock.out)
+    rep.count('wire_sends', min(sock.sends, 4))
+    if got != want or conn.exceptions:
+        try:
+            whole, rest = wire.split_frames(got)
+            body = b''.join(p for (ty, ch, p, raw) in whole if ty == 3)
+            detail = '%d whole frames, %d stray bytes, body frames concatenate to %d bytes (payload %d)' % (len(whole), len(rest), len(body), len(encoded))
+        except ValueError as why:
+            detail = 'not a frame stream: %s' % why
+        rep.violation('C04/wire-bytes-differ', 'the socket took the publish in %d sends of <= %d bytes; %d bytes reached the wire, %d were '
+                      'marshalled; %s; errors %r (%s)' % (sock.sends, mss, len(got), len(want), detail, [repr(e)[:50] for e in conn.exceptions][:1], label),
+                      dict(replay, wire_mss=mss))
+        del conn.exceptions[:]
+
+
 def rand_text(rng, n, codec):
     if codec == 'latin-1':
         return ''.join(chr(rng.choice([rng.randint(32, 126), rng.randint(160, 255)])) for _ in range(n))
@@ -161,6 +203,7 @@ def check(rep):
                           'body_hex': encoded.hex() if len(encoded) <= 256 else None,
                           'body_byte': encoded[0] if encoded and len(encoded) > 256 else None}
                 monitor(rep, rc, frames, cid, encoded, label, replay)
+                wire_pass(rep, rng, rc, cid, frames, encoded, label, replay)
                 slices = [f.value for f in frames[2:]]
                 boundary = len(encoded) % s in (0, 1, s - 1) or len(slices) >= 2
                 rep.case((srv, len(encoded), kind), boundary,
@@ -216,5 +259,12 @@ def replay(data):
     print('TuneOk frame_max=%d; body frame wire sizes: %s' % (rc.tune_ok.frame_max, sizes[:8]))
     ok = all(s <= rc.tune_ok.frame_max for s in sizes) and b''.join(f.value for f in frames[2:]) == body \
         and frames[1].body_size == len(body) and all(len(f.value) for f in frames[2:])
+    if r.get('wire_mss'):
+        rep = common.Report('C04', 'quick')
+        for k in range(20):
+            wire_pass(rep, random.Random(k), rc, cid, frames, body, 'replay', dict(r))
+        for v in rep.violations[:1]:
+            print(v.what if hasattr(v, 'what') else v)
+        ok = ok and not rep.violations
     print('property holds on this input' if ok else 'VIOLATION reproduced')
     return 0 if ok else 1
